@@ -180,6 +180,46 @@ def gen_definition(rng, n_state=None, n_control=None, n_calib=None, n_sensors=No
     return Definition(dt, state, control, calib, model, sensors, transcend)
 
 
+def tame_definition(rng, n_state=None, n_control=1, n_sensors=1, singular=False, n_calib=0, max_readings=2):
+    """bounded dynamics: each state is a contraction-weighted combination of states plus dt*control plus a bounded rational
+    term, so that states and covariances stay bounded along any history (used for histories and data matrices)"""
+    n = n_state or rng.choice([2, 3, 4])
+    names = fresh_names(rng, n + n_control + n_calib)
+    state = [Symbol(x) for x in names[:n]]
+    control = [Symbol(x) for x in names[n:n + n_control]]
+    calib = [Symbol(x) for x in names[n + n_control:]]
+    dt = Symbol("dt")
+    model = {}
+    for s in state:
+        terms = rng.sample(state, rng.choice([1, min(2, n)]))
+        w = Rational(1, 2 * len(terms))
+        e = sum(w * rng.choice([1, -1]) * t for t in terms)
+        for u in control:
+            if rng.random() < 0.7:
+                e = e + dt * u * Rational(rng.choice([1, 2, 3]), 2)
+        if rng.random() < 0.5:
+            t = rng.choice(state)
+            e = e + Rational(rng.choice([1, 2]), 1) * t / (1 + t ** 2)
+        for k in calib:
+            if rng.random() < 0.5:
+                e = e + k * Rational(1, 4)
+        model[s] = sympy.sympify(e)
+    for extra in control + calib:
+        if not any(extra in model[s].free_symbols for s in state):
+            model[state[0]] = model[state[0]] + dt * extra
+    if singular and n >= 2:
+        model[state[1]] = model[state[0]]
+    sensors = {}
+    for i in range(n_sensors):
+        key = rng.choice(["alt", "gps", "imu"]) + str(i)
+        rn = fresh_names(rng, rng.randint(1, max_readings), set(names))
+        sensors[key] = {}
+        for r in rn:
+            a, b = rng.choice(state), rng.choice(state)
+            sensors[key][r] = sympy.sympify(rng.choice([1, 2]) * a + rng.choice([0, 1]) * b - rng.choice([0, 1]) / (1 + a ** 2))
+    return Definition(dt, state, control, calib, model, sensors)
+
+
 def gen_point(rng, d: Definition):
     return {
         "dt": Fraction(rng.randint(1, 16), 32),
